@@ -41,6 +41,7 @@ type Exec struct {
 	inlineDepth int
 	subsetFail []string
 	curReveal []string
+	curDecr   []*Term // recursion measure of the function under verification, at its entry
 	allPkgs   []*packages.Package
 	typeCache map[string]types.Type
 }
@@ -332,7 +333,17 @@ func (x *Exec) callEffects(c *ssa.CallCommon, in *ssa.Function) map[string]bool 
 		return e
 	}
 	// dynamic call of a function value: closures of the enclosing function are covered by AnonFuncs; others are callbacks
+	if isLocalClosureCall(c.Value) {
+		return e
+	}
 	e["$trace"] = true
+	for _, n := range x.mutatorArrays(c.Value) {
+		for _, hn := range x.reg.heapOrd {
+			if hn == n || (strings.HasSuffix(n, "*") && strings.HasPrefix(hn, strings.TrimSuffix(n, "*"))) {
+				e[hn] = true
+			}
+		}
+	}
 	return e
 }
 
@@ -504,6 +515,15 @@ func isFreshSlice(v ssa.Value, depth int) bool {
 	switch v := v.(type) {
 	case *ssa.MakeSlice:
 		return true
+	case *ssa.Call:
+		// library functions that return a newly allocated slice
+		if callee := v.Call.StaticCallee(); callee != nil {
+			switch callee.String() {
+			case "strings.Fields", "strings.Split", "strings.SplitN":
+				return true
+			}
+		}
+		return false
 	case *ssa.Slice:
 		return isFreshSlice(v.X, depth+1)
 	case *ssa.UnOp:
@@ -526,4 +546,29 @@ func isFreshSlice(v ssa.Value, depth int) bool {
 		return n > 0
 	}
 	return false
+}
+
+// isLocalClosureCall: the callee is read from a local variable that only ever holds closures made in this function
+func isLocalClosureCall(v ssa.Value) bool {
+	if _, ok := v.(*ssa.MakeClosure); ok {
+		return true
+	}
+	u, ok := v.(*ssa.UnOp)
+	if !ok || u.Op != token.MUL {
+		return false
+	}
+	al, ok := u.X.(*ssa.Alloc)
+	if !ok {
+		return false
+	}
+	n := 0
+	for _, r := range *al.Referrers() {
+		if st, ok := r.(*ssa.Store); ok && st.Addr == al {
+			n++
+			if _, ok := st.Val.(*ssa.MakeClosure); !ok {
+				return false
+			}
+		}
+	}
+	return n > 0
 }
